@@ -37,7 +37,9 @@ pub fn gamma(z: f64) -> f64 {
             x += val / ((z - 1.) + (idx as f64) + 1.);
         }
         let t = (z - 1.) + G - 0.5;
-        ((2. * PI) as f64).sqrt() * t.powf((z - 1.) + 0.5) * (-t).exp() * x
+        // t^(z - 1/2) overflows long before gamma(z) does, so split the power in two
+        let p = t.powf(((z - 1.) + 0.5) / 2.);
+        ((2. * PI) as f64).sqrt() * p * (-t).exp() * p * x
     }
 }
 
